@@ -1083,3 +1083,196 @@ val hq_pfs_new : n list -> pcode list -> pfsupport list outcome
 
 val hq_rank_prefetch_pfs :
   n -> hqwt -> pfsupport list -> n -> n -> n option outcome
+
+type abi = { sz_rsq : n; sz_rsw : n; sz_rsn : n; sz_pfs : n; sz_code : 
+             n; sz_vec : n }
+
+val abi64 : abi
+
+val sum_lens : 'a1 list list -> n
+
+val qv_heap : qvec -> n
+
+val rss_heap : rssupport -> n
+
+val rsq_heap : rsq -> n
+
+val bv_heap : bitvec -> n
+
+val rsn_heap : rsnarrow -> n
+
+val rsw_heap : rswide -> n
+
+val inv_heap : inventories -> n
+
+val da_heap : darray -> n
+
+val pfs_heap : abi -> pfsupport -> n
+
+val qwt_heap : abi -> qwt -> pfsupport list option -> n
+
+val wt_heap_plain : abi -> bwt -> n
+
+val qv_space : qvec -> n
+
+val rss_space : rssupport -> n
+
+val rsq_space : rsq -> n
+
+val bv_space : bitvec -> n
+
+val rsn_space : rsnarrow -> n
+
+val rsw_space : rswide -> n
+
+val inv_space : inventories -> n
+
+val da_space : darray -> n
+
+val pfs_space : pfsupport -> n
+
+val qwt_space : qwt -> pfsupport list option -> n
+
+val hq_space : hqwt -> pfsupport list option -> n
+
+val wt_space : bool -> bwt -> n
+
+val schema_0 : ty
+
+val schema_1 : ty
+
+val schema_2 : ty
+
+val schema_3 : ty
+
+val schema_4 : ty
+
+val schema_5 : ty
+
+val schema_6 : ty
+
+val schema_7 : ty
+
+val schema_8 : ty
+
+val schema_9 : ty
+
+val schema_10 : ty
+
+val schema_11 : ty
+
+val schema_12 : ty
+
+val schema_13 : ty
+
+val schema_14 : ty
+
+val schema_15 : ty
+
+val schema_16 : ty
+
+val schema_17 : ty
+
+val schema_18 : ty
+
+val schema_19 : ty
+
+val schema_20 : ty
+
+val schema_21 : ty
+
+val schema_22 : ty
+
+val schema_23 : ty
+
+val schema_24 : ty
+
+val schema_25 : ty
+
+val schema_26 : ty
+
+val schema_27 : ty
+
+val schema_28 : ty
+
+val schema_29 : ty
+
+val schema_30 : ty
+
+val schema_31 : ty
+
+val schema_32 : ty
+
+val schema_33 : ty
+
+val schema_34 : ty
+
+val schema_35 : ty
+
+val schema_36 : ty
+
+val schema_37 : ty
+
+val schema_38 : ty
+
+val schema_39 : ty
+
+val schema_40 : ty
+
+val schema_41 : ty
+
+val schema_42 : ty
+
+val schema_43 : ty
+
+val schema_44 : ty
+
+val schema_45 : ty
+
+val schema_46 : ty
+
+val schema_47 : ty
+
+val schema_48 : ty
+
+val schema_49 : ty
+
+val schema_50 : ty
+
+val schema_51 : ty
+
+val schema_52 : ty
+
+val schema_53 : ty
+
+val schema_54 : ty
+
+val schema_55 : ty
+
+val schema_56 : ty
+
+val schema_57 : ty
+
+val schema_58 : ty
+
+val schema_59 : ty
+
+val schema_60 : ty
+
+val schema_61 : ty
+
+val schema_62 : ty
+
+val schema_63 : ty
+
+val schema_64 : ty
+
+val schema_65 : ty
+
+val schema_66 : ty
+
+val schema_67 : ty
+
+val schema_68 : ty
+
+val all_schemas : (n * ty) list
